@@ -537,7 +537,7 @@ func IntIsZero(t *sym.Term) *sym.Term {
 		}
 		return r
 	}
-	return sym.Eq(t, sym.ConstI(0))
+	return absint.EqInt(t, sym.ConstI(0))
 }
 
 var _ = hex.EncodeToString
